@@ -283,7 +283,7 @@ class WireTap:
         ups = list(self.storage.uploads[up0:]) if self.storage is not None else []
         self.log.append(
             {"worker": self.name, "method": method, "path": path, "req_len": len(body or b""), "status": r.status_code,
-             "body": r.content, "headers": {k.lower(): v for k, v in dict(r.headers).items()}, "uploads": ups}
+             "body": r.content, "headers": {k.lower(): v for k, v in dict(r.headers).items()}, "uploads": ups, "up0": up0}
         )
 
     def simulate_post(self, path: str, body: Any = None, headers: Any = None, **kw: Any) -> Any:
@@ -478,6 +478,7 @@ class pinned_entropy:  # noqa: N801
 
         self._saved = [(ST, "os", ST.os), (ST, "time", ST.time), (AS, "uuid", AS.uuid), (AS, "time", AS.time), (CR, "os", CR.os)]
         n = [0]
+        self._n = n
 
         def urandom(k: int) -> bytes:
             n[0] += 1
@@ -498,6 +499,10 @@ class pinned_entropy:  # noqa: N801
         AS.uuid = _Shim(_uuid, uuid4=uuid4)  # type: ignore[assignment]
         AS.time = _Shim(_time, time=lambda: self.T0)  # type: ignore[assignment]
         return self
+
+    def reset(self) -> None:
+        """Restart the counter: the next call sequence gets exactly the same bytes as the first one."""
+        self._n[0] = 0
 
     def __exit__(self, *a: Any) -> None:
         for mod, name, val in self._saved:
